@@ -1,6 +1,7 @@
 package main
 
 import (
+	"go/types"
 	"fmt"
 	"go/token"
 
@@ -118,8 +119,12 @@ func (ma *mergeAnalysis) ruleR9(c *Ctx) {
 					if !ok {
 						continue
 					}
-					if _, isLen := isBuiltinCall(bo.X, "len"); !isLen {
+					lenCall, isLen := isBuiltinCall(bo.X, "len")
+					if !isLen {
 						continue
+					}
+					if _, isStr := lenCall.Call.Args[0].Type().Underlying().(*types.Basic); isStr {
+						continue // len(args[0]) == 0 is the marker test (an empty first argument), not a length of the list
 					}
 					other := cd.If.Block().Succs[0]
 					if cd.Pol {
